@@ -7,6 +7,7 @@ in `Thm/C12`.)
 -/
 import CfavmlModel.Spec.Names
 import CfavmlModel.Gen.Tables
+import CfavmlModel.Gen.RefTables
 import CfavmlModel.Lemmas.ListAll
 
 namespace Cfavml.Thm.C11
@@ -41,6 +42,12 @@ theorem fma_tag_truthful : ∀ r ∈ exports,
   rw [this]
 
 theorem exports_count : exports.length = 768 := by decide +kernel
+
+/-- **C11 (one name per routine).** The export tables are the only source of routine names: no `pub use … x as y` gives a
+routine a second name. (Names are injective — `op_tokens_injective` and the type / form / architecture / fma tokens — so a
+second name could only say something else than the first; and an explicit re-export *shadows* a glob-exported routine of
+that name, so the name would silently stop meaning what its table row says.) -/
+theorem no_renamed_exports : exportAliases = [] := by decide
 
 /-- non-vacuity: a concrete row (the one the fixed defect was in) is in the table and passes -/
 example : ∃ r ∈ exports, r.xany = [.f64, .xany, .avx512, .nofma, .min, .vertical] ∧ r.op = .generic_min_vertical := by
